@@ -252,7 +252,7 @@ pub fn run(ctx: &Ctx) -> Report {
      x --terminal x {NO_COLOR, TERM=dumb, TERM=xterm}; stdout compared byte-for-byte with the expected payload, stderr emptiness, escape sequences, exit status; non-trivial = any flag set or failure; distinct by configuration",
   );
   report.exhaustive = ctx.replay.is_none();
-  report.rule.push_str("; plus: --open with a talkative launcher first in PATH, announce with no peers and with two trackers sharing a peer, non-UTF-8 option values, help and version forms, lint refusals, standard output closed early or on a full device, standard error on a pseudo-terminal with and without --quiet for eight commands");
+  report.rule.push_str("; plus: --open with a talkative launcher first in PATH, announce with no peers and with two trackers sharing a peer, non-UTF-8 option values, help and version forms, lint refusals, standard output closed early or on a full device, standard error on a pseudo-terminal with and without --quiet for eight commands; write_all through the real OutputStream over a scripted writer (short writes of every size, failing writes, inactive stream: hook stream_write_all); a standard output whose reader stalls while the command is suspended and resumed");
   report.correspondences.push("C18.streams: stderr activity / stdout styling of the real binary = Imdlv.Streams.{outStream,errStream}; exit status = exitCode".into());
   let mut cfgs = Vec::new();
   for scenario in ["create-stdout", "create-file", "create-open", "link", "link-open", "show-json", "show", "verify", "announce", "announce-no-peers", "announce-two-trackers", "piece-length", "completions", "completions-dir", "usage", "usage-no-subcommand", "usage-torrent-alone", "usage-missing-value", "usage-bad-value", "usage-non-utf8-value", "version", "version-short", "help", "help-subcommand", "create-lint-rejected"] {
@@ -460,6 +460,75 @@ pub fn run(ctx: &Ctx) -> Report {
         }
       }
     }
+  }
+  // ---- `write_all` through the real `OutputStream` over a scripted writer (hook `stream_write_all`): every pattern of
+  // short writes and failures; S: success means the writer received exactly the payload, failure means a prefix of it and
+  // only after a failing write, an inactive stream passes nothing on; M: Imdlv.WriteAll.writeAll predicts both exactly
+  {
+    report.correspondences.push("C18.write-all: success flag and bytes received by the writer behind the real OutputStream under write_all = Imdlv.WriteAll.writeAll".into());
+    let replayed: Option<Vec<serde_json::Value>> = super::replay_cases(ctx).map(|rc| rc.into_iter().filter(|v| v.get("write_all").is_some()).collect());
+    let mut cases: Vec<(bool, Vec<u8>, Vec<i64>)> = Vec::new();
+    match replayed {
+      Some(rc) => {
+        for v in rc {
+          let w = &v["write_all"];
+          cases.push((
+            w["active"].as_bool().unwrap_or(true),
+            crate::model::unhex(w["data"].as_str().unwrap_or("-")).unwrap_or_default(),
+            w["script"].as_array().map(|a| a.iter().filter_map(|x| x.as_i64()).collect()).unwrap_or_default(),
+          ));
+        }
+      }
+      None => {
+        let mut rng = crate::rng::Rng::new(ctx.seed).fork(0xC18A);
+        for (a, d, sc) in [(true, vec![], vec![]), (true, vec![1u8, 2, 3], vec![0]), (true, vec![1, 2, 3], vec![1, 1, 1]), (true, vec![1, 2, 3], vec![-1]), (true, vec![1, 2, 3], vec![2, -1]), (false, vec![1, 2, 3], vec![-1]), (true, vec![9; 10], vec![3, 100])] {
+          cases.push((a, d, sc));
+        }
+        for _ in 0..ctx.n(1500, 60_000) {
+          let len = *rng.pick(&[0u64, 1, 2, 3, 7, 16, 100, 4095, 4096, 4097, 20_000]);
+          let len = if rng.chance(1, 3) { rng.below(len + 1) } else { len };
+          let data = rng.bytes(len as usize);
+          let turns = rng.below(12);
+          let fail_p = *rng.pick(&[0u64, 0, 0, 1, 3]);
+          let script: Vec<i64> = (0..turns)
+            .map(|_| if rng.below(10) < fail_p { -1 - rng.below(3) as i64 } else { *rng.pick(&[0i64, 1, 1, 2, 3, 100, 4096, 1 << 40]) + if rng.chance(1, 4) { rng.below(5000) as i64 } else { 0 } })
+            .collect();
+          cases.push((rng.chance(5, 6), data, script));
+        }
+      }
+    }
+    let mut model = Model::spawn(&ctx.vmodel);
+    for (active, data, script) in cases {
+      let (ok, got) = imdl::verif::stream_write_all(active, &data, script.clone());
+      let case = json!({"write_all": {"active": active, "data": crate::model::hex(&data), "script": script}});
+      let fails = script.iter().any(|k| *k < 0);
+      report.case(if script.is_empty() || data.is_empty() { None } else { Some(fnv_str(&case.to_string())) });
+      report.hit(&format!("write-all:{}{}", if active { "active" } else { "inactive" }, if fails { ",failing-write-in-script" } else { "" }));
+      report.hit(&format!("write-all:turns={}", script.len().min(6)));
+      // S
+      let s_bad = if !active {
+        (!ok || !got.is_empty()).then(|| "an inactive stream must pass nothing on and must not fail".to_string())
+      } else if ok && got != data {
+        Some(format!("success reported, the writer received {} of {} bytes", got.len(), data.len()))
+      } else if !ok && !fails {
+        Some("failure reported although no write failed".to_string())
+      } else if !data.starts_with(&got) {
+        Some("the writer received bytes that are no prefix of the payload".to_string())
+      } else {
+        None
+      };
+      if let Some(d) = s_bad {
+        report.fail("property", "stream-discipline", case, d);
+        continue;
+      }
+      let sc = if script.is_empty() { "-".to_string() } else { script.iter().map(|k| k.to_string()).collect::<Vec<_>>().join(",") };
+      let ans = model.ask(&format!("C18 writeall {} {} {}", active as u8, crate::model::hex(&data), sc));
+      let want = format!("ok {} {}", ok as u8, crate::model::hex(&got));
+      if ans != want {
+        report.fail("model", "C18.write-all", case, format!("implementation `{}`, model `{}`", &want[..want.len().min(80)], &ans[..ans.len().min(80)]));
+      }
+    }
+    report.model_requests += model.requests;
   }
   // ---- a reader that stalls (the pipe fills, the command is suspended and resumed while blocked, a write returns short):
   // `--output -` still delivers exactly the bytes of the file, and the other payloads arrive whole
